@@ -24,13 +24,13 @@ CONSTANTS
   MaxMembers = 0
   B = %(B)d
   FixSelf = %(fs)s
-INVARIANTS InvTerminates InvLookupCorrect
+INVARIANTS %(inv)s
 CHECK_DEADLOCK FALSE
 """
 
-def cfg(fixself, lay="LayR4", init="{1, 3, 4}", j="{2}", l="{3}", B=3):
+def cfg(fixself, lay="LayR4", init="{1, 3, 4}", j="{2}", l="{3}", B=3, inv="InvTerminates InvLookupCorrect"):
     t = lambda b: "TRUE" if b else "FALSE"
-    return CFG % dict(fp=t(ringcheck.CODE_FIXPRED), fl=t(ringcheck.CODE_FIXLEAVE), fw=t(ringcheck.CODE_FIXWRAP), lay=lay, init=init, j=j, l=l, B=B, fs=t(fixself))
+    return CFG % dict(inv=inv, fp=t(ringcheck.CODE_FIXPRED), fl=t(ringcheck.CODE_FIXLEAVE), fw=t(ringcheck.CODE_FIXWRAP), lay=lay, init=init, j=j, l=l, B=B, fs=t(fixself))
 
 
 def replay(ck, binary, sc, origin):
@@ -65,7 +65,8 @@ def run(ck):
         replay(ck, binary, ck.replay, "replay")
         return
     ck.rule = ("cases = (i) directed replays of ChordRing counterexamples / defective-variant counterexamples into real nodes placed at "
-               "ids pos*2^(48-B)+1, followed by FindSuccessor from every live node for every position; (ii) seeded controlled schedules "
+               "ids pos*2^(48-B)+1, followed by FindSuccessor from every live node for every position; (i') TLC's shortest behaviours to states in which a "
+               "node of each lifecycle state (Active, Joining, Transferring, Leaving) has no finger preceding some key, replayed the same way; (ii) seeded controlled schedules "
                "with lookups issued at every gate of concurrent joins and leaves; each in its own process with a deadline; "
                "non-trivial = all (every case contains a join or leave in flight); distinct = distinct step lists")
     # (A) design as implemented
@@ -80,6 +81,25 @@ def run(ck):
             if r.error and r.trace_json:
                 sc = ringlib.cex_to_scenario(ringlib.cex_states(r.trace_json), "variant-cex-" + r.error["name"], finish=False, scale_bits=B, lookups_at_end=True)
                 replay(ck, binary, sc, "variant-counterexample")
+    # (A') coverage goals: the shortest behaviours that bring a node of each lifecycle state to the "no finger precedes the key" branch
+    goals = [("Active", "LayR4", "{1, 3, 4}", "{2}", "{3}", 3), ("Joining", "LayR4", "{1, 3, 4}", "{2}", "{3}", 3),
+             ("Transferring", "LayR4", "{1, 3, 4}", "{2}", "{3}", 3), ("Leaving", "LayR4", "{1, 3, 4}", "{2}", "{3}", 3),
+             ("Active", "LayR4", "{1, 3}", "{2, 4}", "{}", 3)]
+    if ck.thorough:
+        goals += [(st, "LayR5", "{1, 2, 4, 5}", "{3}", "{2}", 4) for st in ("Active", "Joining", "Transferring", "Leaving")]
+    jobs = [dict(module="MC_ChordRing", cfg=cfg(CODE_FIXSELF, lay, init, j, l, B, inv="InvNoSelfFwd" + st), allow_error=True, timeout=900, workers=4, count=False)
+            for (st, lay, init, j, l, B) in goals]
+    reached = 0
+    for (st, lay, init, j, l, B), r in zip(goals, ck.tlc_many(jobs, parallel=4)):
+        if not r.error:
+            ck.notes.append("self-forward branch unreachable for a node in state %s (%s, members %s, joiners %s, leavers %s)" % (st, lay, init, j, l))
+            continue
+        reached += 1
+        sc = ringlib.cex_to_scenario(ringlib.cex_states(r.trace_json), "goal-selffwd-%s-%s" % (st, lay), finish=False, scale_bits=B, lookups_at_end=True)
+        replay(ck, binary, sc, "coverage-goal")
+    ck.extra["selfforward_goal_witnesses"] = reached
+    if not reached:
+        raise vf.Infra("no coverage goal of the self-forward branch was reached: the branch is not exercised")
     # (B) seeded schedules with lookups at every gate
     n = 120 if ck.thorough else 24
     for i in range(n):
